@@ -42,6 +42,7 @@ def run(eng, rep) -> None:
     rep.rule("R06.2", "each emit-able scalar type has can_decode_signal_as_<T> / can_encode_signal_from_<T>, defined and declared, 6 parameters")
     rep.rule("R06.3", "subscripts of all-constant literal dicts use keys that exist; short integers get a C member type")
     rep.rule("R06.8", "grouping containers are not built from one shared mutable default (dict.fromkeys(keys, []), [[]] * n) that is then changed through a slot")
+    rep.rule("R06.9", "a per-type signal codec that names an integer-type tag (U8..I64) names the tag of its own type")
     rep.rule("R06.4", "free names of the device templates are bound at the render sites")
     rep.rule("R06.7", "run-time handlers place the field with their own (start, length) through the bit-field primitive; no symmetric clamp on the encode value path")
     rep.rule("R06.5", "no implicit narrowing below 64 bits between `<< start` and the handler's return")
@@ -268,12 +269,22 @@ def run(eng, rep) -> None:
         if not f_.module.name.startswith("fcp_can_c"):
             continue
         n_g += 1
+        from ..dataflow import groupby_unsorted, keyed_pairs_use
+        for gcall in groupby_unsorted(f_.node):
+            use, how = keyed_pairs_use(eng, f_, gcall)
+            if use == "overwrite":
+                rep.violation("R06.8", f_.file, f_.qual, norm(gcall, 60), "itertools.groupby groups only ADJACENT equal keys and its input is not sorted by that key: when the bindings of a device are interleaved with another device's, the device gets several groups, and they are stored by key (%s) so only the last one is kept - messages disappear from its generated C" % how)
+            elif use == "merge":
+                rep.ok("R06.8", f_.file, f_.qual, norm(gcall, 60), "groupby over an unsorted sequence, but the runs of one key are merged (%s)" % how)
+            else:
+                rep.undecided("R06.8", f_.file, f_.qual, norm(gcall, 60), "groupby over an unsorted sequence; %s" % how)
         for nm_, made_, st_ in shared_default_aliasing(f_.node):
             rep.violation("R06.8", f_.file, f_.qual, "%s = %s ... %s" % (nm_, norm(made_, 50), norm(st_, 50)), "every slot of '%s' holds the same object, and it is changed through one slot: each key (device) ends up with the union of all entries, so a device's C files describe messages it does not send" % nm_)
     rep.ok("R06.8", "-", "-", "grouping containers of the C writer", "%d functions scanned" % n_g)
     # ---- R06.5 / R06.6 (typed AST) -------------------------------------------------------
     r065(eng, rep, tu, fns)
     r066(eng, rep, fns)
+    r069(eng, rep, fns)
     r067(eng, rep, fns)
     # shifts computed in a narrower type than the one their value is used in (variable count)
     from ..front_clang import narrow_shifts
@@ -480,6 +491,30 @@ def r067(eng, rep, fns) -> None:
                                   "the value is limited to the symmetric range [-%s, %s] on the encode path: a two's complement field also holds -%s - 1, so the most negative in-range value is encoded as min + 1" % (bname, bname, bname))
 
 
+
+def r069(eng, rep, fns) -> None:
+    """type tags: a per-type signal codec that names an integer-type tag (U8 .. I64) names its own"""
+    n = 0
+    for name in sorted(fns):
+        m_ = re.fullmatch(r"can_(?:decode_signal_as|encode_signal_from)_(u?)int(\d+)_t", name)
+        if not m_:
+            continue
+        want = ("U" if m_.group(1) else "I") + m_.group(2)
+        for d in fns[name]:
+            b = body_of(d)
+            if b is None:
+                continue
+            for x in cwalk(b):
+                if x.kind == "DeclRefExpr" and x.get("referencedDecl", {}).get("kind") == "EnumConstantDecl":
+                    tag = x["referencedDecl"].get("name", "")
+                    if not re.fullmatch(r"[UI](8|16|32|64)", tag):
+                        continue
+                    n += 1
+                    rep.check(tag == want, "R06.9", "plugins/fcp_can_c/templates/can_signal_parser.c", name, "type tag %s" % tag, "the codec of %s names its own tag" % want,
+                              "the codec for %s hands the tag %s to the shared conversion code: byte order / sign handling is done for another type than the one this function returns" % (want, tag))
+    rep.floor("R06.9", "integer-type tags named by per-type codecs", n, 8)
+
+
 def r066(eng, rep, fns) -> None:
     sibs = sorted(n for n in fns if re.fullmatch(r"can_decode_signal_as_int\d+_t", n))
     rep.floor("R06.6", "signed decoders", len(sibs), 2)
@@ -491,6 +526,27 @@ def r066(eng, rep, fns) -> None:
         width = int(re.search(r"int(\d+)_t", name).group(1))
         calls = [x for x in cwalk(body_of(d)) if x.kind == "CallExpr" and any(y.kind == "DeclRefExpr" and y.get("referencedDecl", {}).get("name") == "bitfield_sign_conv" for y in cwalk(x.inner[0]))]
         if not calls:
+            # delegated to a helper of this translation unit?
+            seen_, work_, via = set(), [name], None
+            while work_ and via is None:
+                k_ = work_.pop()
+                if k_ in seen_:
+                    continue
+                seen_.add(k_)
+                for dd in fns.get(k_, []):
+                    bb = body_of(dd)
+                    if bb is None:
+                        continue
+                    for y in cwalk(bb):
+                        if y.kind == "DeclRefExpr" and y.get("referencedDecl", {}).get("kind") == "FunctionDecl":
+                            cn = y["referencedDecl"]["name"]
+                            if cn == "bitfield_sign_conv" and k_ != name:
+                                via = k_
+                            elif cn in fns and len(seen_) < 6:
+                                work_.append(cn)
+            if via is not None:
+                rep.undecided("R06.6", "plugins/fcp_can_c/templates/can_signal_parser.c", name, "bitfield_sign_conv(..., length)", "sign extension is delegated to %s; whether it applies to this decoder's arguments is not decided here (the type tag it passes is checked by R06.9)" % via)
+                continue
             rep.violation("R06.6", "plugins/fcp_can_c/templates/can_signal_parser.c", name, "bitfield_sign_conv(..., length)", "this signed decoder does not sign-extend the extracted field although its siblings do: negative values narrower than the carrier decode as large positive numbers")
             continue
         c = calls[0]
